@@ -53,7 +53,7 @@ let opts_of m = {
   o_expect = (match get m "exp" with "-" -> None | s -> Some (n_of_int (int_of_string s)));
   o_force = (get m "force" = "1") }
 let show_phase = function
-  | PStarted -> "started" | PSnapshotDone -> "snapshot_done" | PPreHookDone -> "pre_hook_done"
+  | PStarted -> "started" | PRetryStarted -> "retry_started" | PSnapshotDone -> "snapshot_done" | PPreHookDone -> "pre_hook_done"
   | PRestartSuspended -> "restart_suspended" | PDaemonStopped -> "daemon_stopped"
   | PSwapping p -> "swapping:" ^ string_of_int (int_of_n p) | PSwapped p -> "swapped:" ^ string_of_int (int_of_n p)
   | PAbortedMidSwap -> "aborted_mid_swap" | PAbortedPostSwap -> "aborted_post_swap"
@@ -65,7 +65,8 @@ let show_res = function
 let show_ver = function MonNone -> "-" | MonOk -> "ok" | MonMixed -> "STALE" | MonNa -> "na"
 let show_mon = function MonNone -> "-" | MonOk -> "ok" | MonMixed -> "MIXED" | MonNa -> "na"
 let observe ?(ver="-") ?(rm="-") w res mon =
-  let ph = match w.jr with None -> "none" | Some j -> show_phase j.j_phase in
+  let ph = match w.jr with None -> "none" | Some j ->
+    Printf.sprintf "%s:%d>%d" (show_phase j.j_phase) (int_of_n j.j_from) (int_of_n j.j_to) in
   let sn = List.filter (fun v -> match w.snaps (n_of_int v) with
       | Some d -> d.s_meta <> None | None -> false) (List.init 64 (fun i -> i)) in
   let sns = if sn = [] then "-" else String.concat "+" (List.map string_of_int sn) in
@@ -82,9 +83,11 @@ let hex_of l = if l = [] then "-" else String.concat "" (List.map (fun x -> Prin
 let () =
   let variant = if Array.length Sys.argv > 3 then Sys.argv.(3) else "repaired" in
   let v = match variant with
-    | "repaired" -> repaired | "defective" -> defective
-    | "modefix" -> { v_mode_fix = true; v_curm_fix = false }
-    | "curmfix" -> { v_mode_fix = false; v_curm_fix = true }
+    | "repaired" -> repaired | "defective" -> defective | "head1" -> head1
+    | "keeponly" -> { v_mode_fix = true; v_curm_fix = true; v_keep_fix = true; v_stale_fix = false }
+    | "staleonly" -> { v_mode_fix = true; v_curm_fix = true; v_keep_fix = false; v_stale_fix = true }
+    | "modefix" -> { v_mode_fix = true; v_curm_fix = false; v_keep_fix = false; v_stale_fix = false }
+    | "curmfix" -> { v_mode_fix = false; v_curm_fix = true; v_keep_fix = false; v_stale_fix = false }
     | _ -> failwith "unknown variant" in
   List.iter (fun line ->
     try
